@@ -113,10 +113,22 @@ class TwinOb(CaseOb):
         self.lower = lower
 
     def prepare(self):
-        self.script = LiftedScript([self.sql], self.dialect)
-        self.script2 = LiftedScript([self.sql2], self.dialect)
+        from sqllineage.exceptions import InvalidSyntaxException
+
+        self.not_accepted = None
+        try:
+            self.script = LiftedScript([self.sql], self.dialect)
+            self.script2 = LiftedScript([self.sql2], self.dialect)
+        except InvalidSyntaxException as e:
+            if self.dialect == "ansi":
+                raise
+            # a corpus shape this dialect's grammar does not accept (e.g. a parenthesised join group under sparksql):
+            # nothing to compare, recorded as such
+            self.not_accepted = str(e).split("\n")[-1][:120]
 
     def body(self):
+        if self.not_accepted:
+            return Verdict(True, {"skipped": "template not accepted under %s: %s" % (self.dialect, self.not_accepted)}, nontrivial=False)
         names = self.names()
         if self.st is not None:
             validity_assumptions(self.st, self.val(names))
@@ -125,9 +137,16 @@ class TwinOb(CaseOb):
         return self.verdict(names, b, a)
 
     def concretise(self, verdict, model):
+        if self.not_accepted:
+            return dict(verdict.data)
         out = StmtOb.concretise(self, verdict, model)
         out["sql2"] = self.script2.render(out["names"])
         return out
+
+    def replay(self, conc, verdict_ok):
+        if conc.get("skipped"):
+            return {"real_ok": True, "lifted_matches": True, "unreplayed": True}
+        return CaseOb.replay(self, conc, verdict_ok)
 
 
 THREE_PART = {
